@@ -105,8 +105,8 @@ def kernel_obligations(rep, tag, header, inst, per_shard_timeout=None, single_ti
     the property-level oracles still judge it). Returns {key: bool}."""
     import concurrent.futures as cf
     if not inst: return {}
-    if per_shard_timeout is None: per_shard_timeout = 300 if rep.tier == "quick" else 2400
-    if single_timeout is None: single_timeout = 90 if rep.tier == "quick" else 600
+    if per_shard_timeout is None: per_shard_timeout = 300 if rep.tier == "quick" else 900
+    if single_timeout is None: single_timeout = 90 if rep.tier == "quick" else 300
     nsh = max(1, min(NPROC, (len(inst) + 7) // 8))
     shards = [inst[i::nsh] for i in range(nsh)]
     def clean(path):
@@ -123,7 +123,7 @@ def kernel_obligations(rep, tag, header, inst, per_shard_timeout=None, single_ti
         ok, out, dt = coqc_file(os.path.basename(pe), timeout=timeout)
         res = {k: (v == "true") for k, v in re.findall(r"\(\s*(\d+),\s*(true|false)\)", out)}
         clean(pe)
-        if not ok or len(res) != len(items): return {}, False, out, dt
+        if not ok or len(res) != len(items): return {}, False, ("TIMEOUT " if dt >= timeout - 2 else "") + out, dt
         pl = f"{COQ}/Cases_{tag}_{name}.v"
         open(pl, "w").write("\n".join(defs + [f"Lemma ob_{k} : o_{k} = {'true' if res[str(k)] else 'false'}. Proof. vm_compute. reflexivity. Qed." for (k, dl, e) in items]) + "\n")
         ok2, out2, dt2 = coqc_file(os.path.basename(pl), timeout=2 * timeout)
@@ -133,7 +133,7 @@ def kernel_obligations(rep, tag, header, inst, per_shard_timeout=None, single_ti
             for ext in (".vo", ".vok", ".vos", ".glob"):
                 try: os.remove(pl[:-2] + ext)
                 except OSError: pass
-        return (res if ok2 else {}), ok2, out2, dt + dt2
+        return (res if ok2 else {}), ok2, ("TIMEOUT " if (not ok2 and dt2 >= 2 * timeout - 2) else "") + out2, dt + dt2
     results = {}; timeouts = []; total = 0.0
     with cf.ThreadPoolExecutor(NPROC) as ex:
         outs = list(ex.map(lambda a: run_shard(str(a[0]), a[1], per_shard_timeout), enumerate(shards)))
@@ -141,7 +141,7 @@ def kernel_obligations(rep, tag, header, inst, per_shard_timeout=None, single_ti
     for (res, ok, out, dt), items in zip(outs, shards):
         total += dt
         if ok: results.update(res)
-        elif "TIMEOUT" in out or "timeout" in out.lower() or not out.strip(): retry += items
+        elif out.startswith("TIMEOUT") or not out.strip(): retry += items
         else:
             rep.oblige(f"instances-evaluate ({tag})", False, out[-500:]); return {}
     if retry:
